@@ -47,6 +47,7 @@ type report struct {
 	Sleeps      int      `json:"sleeps"`
 	SelectYield int      `json:"select_clause_yields"`
 	ChanYield   int      `json:"chan_stmt_yields"`
+	AtomicYield int      `json:"atomic_stmt_yields"`
 	RangeYield  int      `json:"range_chan_yields"`
 	Imports     int      `json:"import_rewrites"`
 	Ledger      int      `json:"ledger_hooks"`
@@ -191,11 +192,43 @@ func doFile(path, rel string) error {
 
 	handledRecv := map[ast.Node]bool{}
 
+	// hasAtomic: the statement's own expressions (not nested blocks or function
+	// literals) call into sync/atomic. An atomic operation is a point where
+	// another goroutine may run in between - "load, compute, store" and
+	// "count, then test" sequences are only as atomic as each single call -,
+	// so it becomes a scheduling point like a lock acquisition.
+	hasAtomic := func(st ast.Stmt) bool {
+		found := false
+		ast.Inspect(st, func(n ast.Node) bool {
+			switch x := n.(type) {
+			case *ast.BlockStmt, *ast.FuncLit:
+				return false
+			case *ast.CallExpr:
+				if se, ok := x.Fun.(*ast.SelectorExpr); ok {
+					if id, ok := se.X.(*ast.Ident); ok && id.Name == "atomic" {
+						found = true
+					}
+				}
+			}
+			return !found
+		})
+		return found
+	}
+
 	var stmtList func(list []ast.Stmt)
 	stmtList = func(list []ast.Stmt) {
 		for _, s := range list {
 			if ls, ok := s.(*ast.LabeledStmt); ok {
 				s = ls.Stmt
+			} else {
+				switch s.(type) {
+				case *ast.ExprStmt, *ast.AssignStmt, *ast.IfStmt, *ast.ReturnStmt, *ast.IncDecStmt:
+					if hasAtomic(s) {
+						edits = append(edits, edit{off(s.Pos()), 0, "simrt.Yield(); "})
+						usesSimrt = true
+						rep.AtomicYield++
+					}
+				}
 			}
 			switch st := s.(type) {
 			case *ast.SendStmt:
